@@ -50,8 +50,7 @@ def run(prop, tier, seed, replay=None):
         return chk.finish()
     cdir = os.path.join(chk.workdir, "corpus")
     cp = corpus_params(tier)
-    if prop == "C11":
-        cp["n_dst0"] = 60 if tier == "thorough" else 10
+    cp["n_dst0"] = 60 if tier == "thorough" else 10
     ents = corpus.build_corpus(cdir, seed, **cp)
     args = ["--zones", os.path.join(cdir, "list.txt"), "--props", prop, "--seed", str(seed), "--tier", tier,
             "--workers", str(core.ncpu()), "--case-timeout", "300"]
